@@ -71,8 +71,20 @@ def o52(ctx):
         s = mk("add", sym(c), sym("shift_" + c))
         exp[c] = T("floor", mk("add", s, const(0.5)))  # round half up
         exp["shift_" + c] = mk("sub", s, exp[c])
+    # special inputs: all shifts exactly zero with fractional stored positions (lists converted from other packages, or scaled by 0.5),
+    # one shift zero, negative positions
+    rng_ = np.random.default_rng(tm.SEED + 52)
+    special = []
+    for k_ in range(12):
+        env = {"__salt__": 0.5}
+        for c in COORD:
+            env[c] = float(rng_.integers(-40, 80)) + float(rng_.choice([0.0, 0.5, 0.25, 0.75]))
+            env["shift_" + c] = 0.0 if k_ % 3 != 2 else float(rng_.choice([0.0, 0.3, -0.5]))
+        for c in others(ctx.prog, COORD, SHIFT):
+            env[c] = float(rng_.uniform(0, 10))
+        special.append(env)
     expect_cols(ctx, it, q, df, exp, unchanged=others(ctx.prog, COORD, SHIFT), samplers=HALF,
-                what="update_coordinates (x' = round-half-up(x+shift), shift' = x+shift-x')", n=40)
+                what="update_coordinates (x' = round-half-up(x+shift), shift' = x+shift-x')", n=40, extra_envs=special)
     # the invariant itself: x' + shift' == x + shift (decided on the extracted terms, independent of the rounding model)
     m, fn = ctx.prog.func(q)
     for c in COORD:
